@@ -233,8 +233,13 @@ func c20Batch(name string, ft reflect.Type) func([]reflect.Value) []reflect.Valu
 			if i < len(keys) {
 				k = keys[i]
 			}
-			if eo, ok := run.Plan[k]; ok && eo.K == "null" && rt.Elem().Kind() == reflect.Ptr {
-				continue
+			if eo, ok := run.Plan[k]; ok && eo.K == "null" {
+				if rt.Elem().Kind() == reflect.Ptr {
+					continue
+				}
+				run.mu.Lock()
+				run.Notes = append(run.Notes, "inapplicable: null for non-nilable "+rt.Elem().String()+" at "+k)
+				run.mu.Unlock()
 			}
 			res.Index(i).Set(c20Entity(rt.Elem(), k))
 		}
